@@ -102,7 +102,7 @@ theorem effect_frame {r c t act c1 pushed} (h : effect r c t act = some (c1, pus
     split at h
     · split at h <;> simp at h <;> obtain ⟨rfl, _⟩ := h <;> exact ⟨rfl, rfl, id, id⟩
     all_goals (try split at h)
-    all_goals (simp at h; obtain ⟨rfl, _⟩ := h; exact ⟨rfl, rfl, id, id⟩)
+    all_goals (simp at h; obtain ⟨rfl, _⟩ := h; first | exact ⟨rfl, rfl, id, id⟩ | exact ⟨rfl, rfl, fun _ => rfl, id⟩)
   · split at h <;> simp at h <;> obtain ⟨rfl, _⟩ := h <;> exact ⟨rfl, rfl, id, id⟩
   · simp at h; obtain ⟨rfl, _⟩ := h; exact ⟨rfl, rfl, id, id⟩
   · simp at h; obtain ⟨rfl, _⟩ := h; exact ⟨rfl, rfl, fun _ => rfl, id⟩
@@ -122,7 +122,6 @@ structure PlainFrame (c c1 : Conn) (pushed : List Act) : Prop where
   once : c1.once = c.once
   disc : c1.disc = c.disc
   skipped : c1.skipped = c.skipped
-  cancSame : c1.cancelled = c.cancelled
   nobody : ∀ a ∈ pushed, isBody a = false
 
 theorem effect_plain {r c t act c1 pushed} (hp : plain c act = true)
@@ -137,27 +136,27 @@ theorem effect_plain {r c t act c1 pushed} (hp : plain c act = true)
       split at h
       · rename_i hf; simp [plain, hf] at hp
       · simp at h
-      · simp at h; obtain ⟨rfl, rfl⟩ := h; exact ⟨rfl, rfl, rfl, rfl, by simp⟩
+      · simp at h; obtain ⟨rfl, rfl⟩ := h; exact ⟨rfl, rfl, rfl, by simp⟩
     all_goals (try split at h)
-    all_goals (simp at h; obtain ⟨rfl, rfl⟩ := h; exact ⟨rfl, rfl, rfl, rfl, by simp [isBody]⟩)
-  · split at h <;> simp at h <;> obtain ⟨rfl, rfl⟩ := h <;> exact ⟨rfl, rfl, rfl, rfl, by simp [isBody]⟩
+    all_goals (simp at h; obtain ⟨rfl, rfl⟩ := h; exact ⟨rfl, rfl, rfl, by simp [isBody]⟩)
+  · split at h <;> simp at h <;> obtain ⟨rfl, rfl⟩ := h <;> exact ⟨rfl, rfl, rfl, by simp [isBody]⟩
   all_goals (try (simp [plain] at hp; done))
   · split at h
-    · simp at h; obtain ⟨rfl, rfl⟩ := h; exact ⟨rfl, rfl, rfl, rfl, by simp [isBody]⟩
+    · simp at h; obtain ⟨rfl, rfl⟩ := h; exact ⟨rfl, rfl, rfl, by simp [isBody]⟩
     · split at h
-      · simp at h; obtain ⟨rfl, rfl⟩ := h; exact ⟨rfl, rfl, rfl, rfl, by simp [isBody]⟩
-      · simp at h; obtain ⟨rfl, rfl⟩ := h; exact ⟨rfl, rfl, rfl, rfl, by simp [isBody]⟩
+      · simp at h; obtain ⟨rfl, rfl⟩ := h; exact ⟨rfl, rfl, rfl, by simp [isBody]⟩
+      · simp at h; obtain ⟨rfl, rfl⟩ := h; exact ⟨rfl, rfl, rfl, by simp [isBody]⟩
       · split at h
         · simp at h; obtain ⟨rfl, rfl⟩ := h
-          refine ⟨rfl, rfl, rfl, rfl, ?_⟩
+          refine ⟨rfl, rfl, rfl, ?_⟩
           intro a ha
           simp at ha
           rcases ha with ⟨x, _, rfl⟩ | ha | rfl
           · rfl
           · obtain ⟨_, rfl⟩ := ha; rfl
           · rfl
-        · simp at h; obtain ⟨rfl, rfl⟩ := h; exact ⟨rfl, rfl, rfl, rfl, by simp [isBody]⟩
-  · split at h <;> simp at h <;> obtain ⟨rfl, rfl⟩ := h <;> exact ⟨rfl, rfl, rfl, rfl, by simp⟩
+        · simp at h; obtain ⟨rfl, rfl⟩ := h; exact ⟨rfl, rfl, rfl, by simp [isBody]⟩
+  · split at h <;> simp at h <;> obtain ⟨rfl, rfl⟩ := h <;> exact ⟨rfl, rfl, rfl, by simp⟩
 
 /-! ### the close-body invariant -/
 
@@ -550,6 +549,8 @@ theorem effect_misc {r c t act c1 pushed} (h : effect r c t act = some (c1, push
       exact ⟨id, fun _ => ⟨rfl, rfl⟩, fun _ => rfl, Or.inl rfl⟩
     · split at h <;> simp at h <;> obtain ⟨rfl, _⟩ := h <;>
         exact ⟨id, fun ha => ⟨ha, rfl⟩, fun _ => rfl, Or.inl rfl⟩
+    · simp at h; obtain ⟨rfl, _⟩ := h
+      exact ⟨id, fun ha => ⟨ha, rfl⟩, fun _ => rfl, Or.inl rfl⟩
   · rename_i rep
     split at h <;> simp at h <;> obtain ⟨rfl, _⟩ := h
     · refine ⟨id, fun ha => ⟨ha, rfl⟩, fun _ => rfl, ?_⟩
@@ -771,6 +772,7 @@ theorem effect_isSome (r : Bool) (c : Conn) (t : Nat) (act : Act)
     | failNet cls => rfl
     | setHandler h => rfl
     | guardedClose => simp only [effect, effApi]; split <;> rfl
+    | cancelParent => rfl
   | readLoop s =>
     simp only [effect]
     split
@@ -856,44 +858,39 @@ theorem progress (r : Bool) (c : Conn) (inv : Inv c) (p : PrefOK c) (hc : c.cras
 
 /-! ### a pending close trigger keeps the connection from staying open for ever -/
 
-/-- acts that inevitably lead to a `closeOnce.Do` while the connection is still open -/
+/-- acts that inevitably lead to a `closeOnce.Do`: `Close`/`CloseUnknown` and a read loop (whose exit runs
+    `closeKnown`).  `CloseWith` and the guarded close are NOT among them: they give up when `Closed(c)` already
+    reports true, which a cancelled parent context causes without any close having run. -/
 def isTrigger : Act → Bool
   | .api (.close _) _ => true
-  | .api .closeWith _ => true
-  | .api .guardedClose _ => true
   | .readLoop _ => true
   | _ => false
 
 def hasTrigger (c : Conn) : Prop :=
   ∃ (t : Nat) (st : List Act) (a : Act), c.threads[t]? = some st ∧ a ∈ st ∧ isTrigger a = true
 
-/-- while the `Once` is fresh the context is not cancelled and the trigger is still pending -/
-def TrigInv (c : Conn) : Prop := c.once = .fresh → c.cancelled = false ∧ hasTrigger c
+/-- while the `Once` is fresh the trigger is still pending -/
+def TrigInv (c : Conn) : Prop := c.once = .fresh → hasTrigger c
 
 theorem trigger_pushes_trigger {r c t act c1 pushed} (htr : isTrigger act = true) (hp : plain c act = true)
-    (hf : c.once = .fresh) (hc : c.cancelled = false) (h : effect r c t act = some (c1, pushed)) : ∃ a ∈ pushed, isTrigger a = true := by
+    (hf : c.once = .fresh) (h : effect r c t act = some (c1, pushed)) : ∃ a ∈ pushed, isTrigger a = true := by
   cases act with
   | api a rep =>
     cases a with
     | close k =>
       simp [plain, hf] at hp
-    | closeWith =>
-      simp [effect, effApi, hc] at h; obtain ⟨_, rfl⟩ := h
-      exact ⟨Act.api (Api.close true) rep, by simp, rfl⟩
-    | guardedClose =>
-      simp [effect, effApi, hc] at h; obtain ⟨_, rfl⟩ := h
-      exact ⟨Act.api (Api.close false) false, by simp, rfl⟩
     | _ => simp [isTrigger] at htr
   | readLoop s =>
-    simp only [effect, hc] at h
-    simp at h
+    simp only [effect] at h
     split at h
     · simp at h; obtain ⟨_, rfl⟩ := h; exact ⟨Act.api (Api.close false) false, by simp, rfl⟩
-    · simp at h; obtain ⟨_, rfl⟩ := h; exact ⟨Act.api (Api.close false) false, by simp, rfl⟩
-    · rename_i p more
-      split at h <;> simp at h <;> obtain ⟨_, rfl⟩ := h
-      · exact ⟨Act.readLoop more, by simp, rfl⟩
-      · exact ⟨Act.readLoop more, by simp, rfl⟩
+    · split at h
+      · simp at h; obtain ⟨_, rfl⟩ := h; exact ⟨Act.api (Api.close false) false, by simp, rfl⟩
+      · simp at h; obtain ⟨_, rfl⟩ := h; exact ⟨Act.api (Api.close false) false, by simp, rfl⟩
+      · rename_i p more
+        split at h <;> simp at h <;> obtain ⟨_, rfl⟩ := h
+        · exact ⟨Act.readLoop more, by simp, rfl⟩
+        · exact ⟨Act.readLoop more, by simp, rfl⟩
   | _ => simp [isTrigger] at htr
 
 theorem step_trigInv {r c t c'} (h : step r c t = some c') (inv : Inv c) (ti : TrigInv c) : TrigInv c' := by
@@ -903,15 +900,14 @@ theorem step_trigInv {r c t c'} (h : step r c t = some c') (inv : Inv c) (ti : T
   by_cases hp : plain c act = true
   · have pf := effect_plain hp he
     have hf : c.once = .fresh := by rw [← pf.once]; exact hf1
-    obtain ⟨hc, t0, st0, a0, h0, ha0, htr⟩ := ti hf
-    refine ⟨by show c1.cancelled = false; rw [pf.cancSame]; exact hc, ?_⟩
+    obtain ⟨t0, st0, a0, h0, ha0, htr⟩ := ti hf
     by_cases e : t0 = t
     · subst e
       rw [hth] at h0
       have hst : st0 = act :: rest := (Option.some.inj h0).symm
       subst hst
       rcases List.mem_cons.1 ha0 with rfl | hin
-      · obtain ⟨a1, ha1, htr1⟩ := trigger_pushes_trigger htr hp hf hc he
+      · obtain ⟨a1, ha1, htr1⟩ := trigger_pushes_trigger htr hp hf he
         exact ⟨t0, pushed ++ rest, a1, getElem?_set_self' _ hth _, List.mem_append_left _ ha1, htr1⟩
       · exact ⟨t0, pushed ++ rest, a0, getElem?_set_self' _ hth _, List.mem_append_right _ hin, htr⟩
     · refine ⟨t0, st0, a0, ?_, ha0, htr⟩
@@ -1021,7 +1017,7 @@ theorem effect_werr {r c t act c1 pushed} (h : effect r c t act = some (c1, push
 /-- a pending trigger survives an ordinary step taken while the `Once` is fresh -/
 theorem hasTrigger_step_plain {r c t act rest c1 pushed} (hth : c.threads[t]? = some (act :: rest))
     (he : effect r c t act = some (c1, pushed)) (hp : plain c act = true) (hf : c.once = .fresh)
-    (hc : c.cancelled = false) (ht : hasTrigger c) :
+    (ht : hasTrigger c) :
     hasTrigger { c1 with threads := c.threads.set t (pushed ++ rest) } := by
   obtain ⟨t0, st0, a0, h0, ha0, htr⟩ := ht
   by_cases e : t0 = t
@@ -1030,16 +1026,15 @@ theorem hasTrigger_step_plain {r c t act rest c1 pushed} (hth : c.threads[t]? = 
     have hst : st0 = act :: rest := (Option.some.inj h0).symm
     subst hst
     rcases List.mem_cons.1 ha0 with rfl | hin
-    · obtain ⟨a1, ha1, htr1⟩ := trigger_pushes_trigger htr hp hf hc he
+    · obtain ⟨a1, ha1, htr1⟩ := trigger_pushes_trigger htr hp hf he
       exact ⟨t0, pushed ++ rest, a1, getElem?_set_self' _ hth _, List.mem_append_left _ ha1, htr1⟩
     · exact ⟨t0, pushed ++ rest, a0, getElem?_set_self' _ hth _, List.mem_append_right _ hin, htr⟩
   · refine ⟨t0, st0, a0, ?_, ha0, htr⟩
     show (c.threads.set t (pushed ++ rest))[t0]? = some st0
     rw [getElem?_set_ne' _ (Ne.symm e)]; exact h0
 
-/-- while the `Once` is fresh: the context is not cancelled, and a write error that has happened has left
-    its `Close()` pending -/
-def WerrInv (c : Conn) : Prop := c.once = .fresh → c.cancelled = false ∧ (c.werr = true → hasTrigger c)
+/-- while the `Once` is fresh, a write error that has happened has left its `Close()` pending -/
+def WerrInv (c : Conn) : Prop := c.once = .fresh → (c.werr = true → hasTrigger c)
 
 theorem step_werrInv {r c t c'} (h : step r c t = some c') (inv : Inv c) (wi : WerrInv c) : WerrInv c' := by
   obtain ⟨act, rest, c1, pushed, _, hth, he, rfl⟩ := step_inv h
@@ -1048,12 +1043,11 @@ theorem step_werrInv {r c t c'} (h : step r c t = some c') (inv : Inv c) (wi : W
   by_cases hp : plain c act = true
   · have pf := effect_plain hp he
     have hf : c.once = .fresh := by rw [← pf.once]; exact hf1
-    obtain ⟨hc, hw⟩ := wi hf
-    refine ⟨by show c1.cancelled = false; rw [pf.cancSame]; exact hc, ?_⟩
+    have hw := wi hf
     intro hw1
     have hw1' : c1.werr = true := hw1
     rcases effect_werr he with e | ⟨a, ha, htr⟩
-    · exact hasTrigger_step_plain hth he hp hf hc (hw (by rw [← e]; exact hw1'))
+    · exact hasTrigger_step_plain hth he hp hf (hw (by rw [← e]; exact hw1'))
     · exact ⟨t, pushed ++ rest, a, getElem?_set_self' _ hth _, List.mem_append_left _ ha, htr⟩
   · cases act with
     | api a rep =>
